@@ -284,6 +284,81 @@ def splitnext_script(rnd, sid):
     return sc
 
 
+def wfail_script(rnd, sid, mode=None):
+    """the WRITE side of the connection fails under a request whose sender is already waiting for the reply, while the read
+    side is healthy and other callers are outstanding: the Write of the request's frame blocks (the peer does not take the
+    bytes) and then fails — as an error or as a timeout-class net.Error (write deadline), before the first byte, after
+    1..9 header bytes, or inside the payload; or a real write deadline runs out. Nothing was answered, so the sender must
+    end with an error: whatever SendMessage returns as a success has to be a frame the peer sent for that request
+    (pred_c03: reply-not-from-peer). Replies to the other callers that arrive while the Write is stuck are delivered.
+    Go only (the model's WriteFail is one event; there the question 'who wakes the sender' does not arise — see
+    C03_no_fabricated_reply)."""
+    mode = mode or rnd.choice(["hold", "hold", "header", "payload", "payload-hold"])
+    kind = rnd.choice(["", "timeout"])
+    b = cc.SB(sid, version=rnd.choice([1, 1, 2]))
+    if kind == "timeout" or mode == "deadline":
+        b.connect_step["client_timeout_ms"] = 250 if mode == "deadline" else 5000
+    b.connect()
+    tag = rnd.randrange(1, 1 << 20) * 64
+    others = rnd.randrange(0, 3)
+    for c in range(1, 1 + others):
+        b.send(c, rnd.choice(REQ_TYPES), 1 + rnd.randrange(0, 40), tag + c)
+    victim = others + 1
+    n = rnd.choice([0, 5, 300]) if mode in ("hold", "header") else rnd.choice([1, 5, 300])
+    vt = rnd.choice(REQ_TYPES)
+
+    def meanwhile():                   # the read side is healthy: another caller's reply arrives and is delivered
+        if others and rnd.random() < 0.6:
+            b.reply_to(1, resp_type(b.reqs[1]["typ"]), rnd.choice([0, 7, 64]), tag + 50)
+            b.wait(1)
+        if rnd.random() < 0.3:
+            b.keepalive(rnd.randrange(1 << 32))
+
+    if mode == "hold":                 # blocks before the first byte, then fails
+        b.op("write_fail", after=0, kind=kind, hold=True)
+        b.send(victim, vt, n, tag + victim, expect=False)
+        meanwhile()
+        b.wait(victim)
+        b.op("release_write")
+    elif mode == "header":             # k header bytes get through once the peer takes them, then the Write fails
+        k = rnd.randrange(1, 10)
+        b.op("write_fail", after=k, kind=kind)
+        b.send(victim, vt, n, tag + victim, expect=False)
+        meanwhile()
+        b.op("peer_read", n=k)
+    elif mode == "payload":            # the header is written, the payload Write fails after k bytes
+        k = rnd.randrange(0, n)
+        b.op("write_fail", after=k, kind=kind, in_payload=True)
+        b.send(victim, vt, n, tag + victim, expect=False)
+        meanwhile()
+        b.op("peer_read", n=10)
+        if k:
+            b.op("peer_read", n=k)
+    elif mode == "payload-hold":       # the header is written, the payload Write blocks, then fails
+        b.op("write_fail", after=0, kind=kind, in_payload=True, hold=True)
+        b.send(victim, vt, n, tag + victim, expect=False)
+        b.op("peer_read", n=10)
+        meanwhile()
+        b.wait(victim)
+        b.op("release_write")
+    else:                              # deadline: a real write deadline (250 ms) runs out while the read side stays alive
+        b.send(victim, vt, 6 + rnd.randrange(0, 40), tag + victim, expect=False)
+        b.op("peer_read", n=rnd.randrange(1, 10))
+        b.op("sleep", ms=150)
+        b.keepalive(77)                # refreshes the read deadline
+        b.op("sleep", ms=200)
+    b.wait(victim)
+    for c in range(1, 1 + others):
+        b.wait(c)
+    b.op("wait_connect")
+    b.op("state")
+    sc = b.script()
+    sc["family"] = "wfail"
+    sc["mode"] = mode
+    sc["step_ms"] = 1500
+    return sc
+
+
 def witness_script():
     """the hand-confirmed defect: request outstanding, KeepAlive with the same id"""
     b = cc.SB("c03-witness", version=1)
@@ -319,15 +394,19 @@ def run(tier, seed, replay=None):
     if replay:
         rp_data = json.load(open(replay))
         scripts = [rp_data["script"]] if "script" in rp_data else []
-        if scripts and scripts[0].get("family") in ("cutreply", "splitnext"):
+        if scripts and scripts[0].get("family") in ("cutreply", "splitnext", "wfail"):
             pred_only, scripts = scripts, []
     else:
         rx = random.Random(seed + 3)
         scripts = ([witness_script()] + gen_scripts(seed, 4000 if thorough else 400, thorough)
                    + [nowait_script(rx, "c03-nowait-%d" % i) for i in range(200 if thorough else 40)]
                    + [oversize_script(rx, "c03-oversize-%d" % i) for i in range(6 if thorough else 1)])
+        rb = random.Random(seed + 41)
+        scripts += [cc.coalesced_script(rb, "c03-coalesced-%d" % i, "replies") for i in range(300 if thorough else 48)]
         pred_only = ([cutreply_script(rx, "c03-cutreply-%d" % i) for i in range(120 if thorough else 24)]
-                     + [splitnext_script(rx, "c03-splitnext-%d" % i) for i in range(300 if thorough else 48)])
+                     + [splitnext_script(rx, "c03-splitnext-%d" % i) for i in range(300 if thorough else 48)]
+                     + [wfail_script(rx, "c03-wfail-%d" % i) for i in range(200 if thorough else 36)]
+                     + [wfail_script(rx, "c03-wfail-deadline-%d" % i, "deadline") for i in range(6 if thorough else 2)])
     scripts = cc.staged(exe, scripts, lambda s_, g_: bool(cc.pred_c03(cc.go_view(s_, g_))))
     go, logs = cc.run_go(exe, scripts, shards=8)
     variant, diffs, counts = cc.pick_variant(scripts, go)
